@@ -153,6 +153,7 @@ func runC05(r *Run) {
 
 	// --- resolution side: window test W and its bound function G
 	var W *ssa.Function
+	wFrom, wUntil, wAnchor := -1, -1, -1
 	wCalls := 0
 	for _, role := range opRoles {
 		if role.ParseSD == "" {
@@ -196,7 +197,11 @@ func runC05(r *Run) {
 				wCalls++
 				if W == nil {
 					W = callee
+					wFrom, wUntil, wAnchor = iFrom, iUntil, iAnchor
 					r.checkWindowTest(P, callee, iFrom, iUntil, iAnchor, windowFns)
+				} else if W == callee && (iFrom != wFrom || iUntil != wUntil || iAnchor != wAnchor) {
+					r.R.Bad(P+".window.sibling.roles."+role.Type, "sibling agreement: every applier passes (AnchorFrom, AnchorUntil, TransactionTime) to the window test in the same argument positions", core.FuncName(f), r.P.Pos(c.Pos()),
+						"with from and until exchanged the window of this operation type is inverted", fmt.Sprintf("argument positions (from %d, until %d, anchor %d) differ from the first site (from %d, until %d, anchor %d)", iFrom, iUntil, iAnchor, wFrom, wUntil, wAnchor))
 				} else if W != callee {
 					r.R.Bad(P+".window.sibling.resolution", "sibling agreement: all operation types use the same window test", core.FuncName(f), r.P.Pos(c.Pos()),
 						"different window rules per type contradict the single rule of the statement", "window test differs: "+core.FuncName(callee)+" vs "+core.FuncName(W))
